@@ -5,7 +5,7 @@ import ast
 import builtins
 import keyword
 
-STATIC_H = ["_", "__", "k", "v", "self", "it", "itertools", "importlib", "type", "setattr", "hasattr", "globals", "locals", "tuple", "list", "slice", "iter", "next", "classmethod", "__import__"]
+STATIC_H = ["_", "__", "k", "v", "self", "it", "itertools", "importlib", "type", "setattr", "hasattr", "globals", "locals", "tuple", "list", "slice", "iter", "next", "classmethod", "__import__", "isinstance"]
 CONTROL = "zz"
 
 # feature templates: lines with the markers  <USE>  (a statement reading the identifier, placed in
@@ -62,20 +62,50 @@ def use_stmt(name, role):
     return "log('u', %s)" % name
 
 
-def program(name, role, feature):
+# how the identifier is reached from the feature's context: directly, or only from a scope nested
+# in it (then the identifier is NOT a symbol of the scope that holds the construct)
+VIAS = ["direct", "lambda", "genexp", "def"]
+VIA_ROLES = ("global", "global_from_function")
+
+
+def via_expr(name, via):
+    if via == "lambda":
+        return "(lambda: %s)()" % name
+    if via == "genexp":
+        return "list(%s for qq in [0])[0]" % name
+    if via == "def":
+        return "rdx()"
+    return name
+
+
+def program(name, role, feature, via="direct"):
     use = use_stmt(name, role)
+    if via != "direct":
+        use = "log('u', %s)" % via_expr(name, via)
     body = []
     usex = use.replace("'u'", "'x'")
     for l in FEATURES[feature]:
-        if "<USE>" in l:
+        if "<USE>" in l and via == "def":
+            # the reader function is defined INSIDE the construct (lexically nested in whatever the
+            # construct is lowered to), right before it is used
+            ind = l[: len(l) - len(l.lstrip())]
+            body += [ind + "def rdx():", ind + "    return %s" % name, l.replace("<USE>", use)]
+        elif "<USE>" in l:
             body.append(l.replace("<USE>", use))
         elif "<USEX>" in l:
             body.append(l.replace("<USEX>", usex))
         else:
             body.append(l)
     post = use.replace("'u'", "'p'")
+    if via == "def":
+        if not any("<USE>" in l for l in FEATURES[feature]):
+            return "raise SyntaxError"  # expression-only positions cannot hold a def (cell skipped)
+        post = "log('p', (lambda: %s)())" % name
     if role == "global":
         lines = ["%s = a" % name] + body + [post]
+    elif role == "global_from_function":
+        # bound at module level, the construct sits in a function that never binds the identifier
+        lines = ["%s = a" % name, "def outer():"] + ["    " + l for l in body] + ["    " + post, "outer()"]
     elif role == "local":
         lines = ["def outer():"] + ["    %s = a" % name] + ["    " + l for l in body] + ["    " + post, "outer()"]
     elif role == "parameter":
@@ -105,16 +135,21 @@ def legal_identifier(name, role):
 
 def cells(names):
     for name in names:
-        for role in ROLES:
+        for role in ROLES + ["global_from_function"]:
             if not legal_identifier(name, role):
                 continue
             for feature in FEATURES:
-                src = program(name, role, feature)
-                try:
-                    compile(src, "<s>", "exec")
-                except SyntaxError:
-                    continue
-                yield "C09:%s:%s:%s" % (name, role, feature), src
+                for via in VIAS if role in VIA_ROLES else VIAS[:1]:
+                    if via == "direct" and role == "global_from_function" and False:
+                        continue
+                    src = program(name, role, feature, via)
+                    if src.startswith("raise SyntaxError"):
+                        continue
+                    try:
+                        compile(src, "<s>", "exec")
+                    except SyntaxError:
+                        continue
+                    yield "C09:%s:%s%s:%s" % (name, role, "" if via == "direct" else "~" + via, feature), src
 
 
 def helper_names(texts_and_sources):
@@ -154,7 +189,7 @@ def temporaries_distinct(out_ast_text):
     suffixes of all __ol_ names are pairwise distinct."""
     import re
 
-    names = set(re.findall(r"__ol_[a-z]+_[a-z]{10}", out_ast_text))
+    names = set(re.findall(r"__ol_[a-z_]+?_[a-z]{10}\b", out_ast_text))
     suffixes = [n[-10:] for n in names]
     return len(suffixes) == len(set(suffixes))
 
